@@ -7,10 +7,14 @@ Extracted (and tied by `reflexivity` to the configurations the theorems of Props
   gen_getcache    : getcache_cfg   -- option defaults, script/async special cases, argument order of the
                                       check_cache call, the final if/elif chain of Scheduler._get_cache
   gen_subrun_opts : subrun_cfg     -- subrun's own defaults, the literal allowed_cache_results set, the
-                                      cache_scope overrides for cache=False / prov=False
+                                      cache_scope overrides for cache=False / prov=False, the guard around the
+                                      cache=False override (none / definition-time scope is BACKEND: a variant the
+                                      theorems refute) and the scope _subrun_root_task is defined with
   gen_handback    : handback_cfg   -- endings of Scheduler.run / extend_run, the dict of _subrun_root_task, `then`
   gen_wiring      : wiring         -- where execution id / parent job of the sub-scheduler's jobs come from
   gen_config_args : list rtarg     -- @task(config_args=[...]) of _subrun_root_task: what is left out of its cache identity
+  gen_root_parts  : list concrete_part -- needs_root_task: which parts of a top-level call must be concrete for it to be
+                                      its own root job (args, kwargs, default args, task options, call-time options)
   gen_ctx_order   : ctx_order      -- Scheduler.run: merge_dicts([config-level context, context given to run()])
 Pinned by shape (translate/pins_C38.json): small helpers the model takes as given (Job.get_raw_options /
 get_options / get_option / recording_provenance / get_context, Execution.__init__, JobInfo.from_job, RedunBackendDb.get_job).
@@ -442,10 +446,25 @@ def extract_evaluate_apply(mod):
     out = {}
     for n in ast.walk(fn):
         if isinstance(n, ast.If) and src(n.test) == "not self._use_cache":
-            if len(n.body) != 1 or n.orelse or not (isinstance(n.body[0], ast.Assign)
-                                                      and src(n.body[0].targets[0]) == "job_options['cache_scope']"):
+            def override(st):
+                if not (isinstance(st, ast.Assign) and src(st.targets[0]) == "job_options['cache_scope']"):
+                    fail("_evaluate_apply: unrecognised cache=False downgrade", n)
+                return enum_of(st.value, "CacheScope", SCOPES, "_evaluate_apply")
+            if n.orelse:
                 fail("_evaluate_apply: unrecognised cache=False downgrade", n)
-            out["nocache_scope"] = enum_of(n.body[0].value, "CacheScope", SCOPES, "_evaluate_apply")
+            if len(n.body) == 1:
+                # unconditional: every job of a cache=False run gets the job-level override
+                out["nocache_scope"] = override(n.body[0])
+                out["nocache_guard"] = "GuardNone"
+            elif len(n.body) == 2 and isinstance(n.body[0], ast.Assign) and isinstance(n.body[1], ast.If) \
+                    and src(n.body[0].targets[0]) == "task_scope" \
+                    and src(n.body[0].value) == "CacheScope(task.get_task_option('cache_scope', CacheScope.BACKEND))" \
+                    and src(n.body[1].test) == "task_scope == CacheScope.BACKEND" and len(n.body[1].body) == 1 and not n.body[1].orelse:
+                # only for a task whose *definition* has backend scope (call-time options are not consulted)
+                out["nocache_scope"] = override(n.body[1].body[0])
+                out["nocache_guard"] = "GuardDefinedBackend"
+            else:
+                fail("_evaluate_apply: unrecognised cache=False downgrade", n)
         if isinstance(n, ast.If) and src(n.test) == "not job.recording_provenance()":
             if len(n.body) != 1 or n.orelse or not (isinstance(n.body[0], ast.Assign)
                                                       and src(n.body[0].targets[0]) == "job.eval_options['cache_scope']"):
@@ -458,7 +477,7 @@ def extract_evaluate_apply(mod):
             out["job_parent"] = "WParentJobArg" if kw.get("parent_job") == "parent_job" else "WJobNoParent"
             if out["job_exec"] is None:
                 fail("_evaluate_apply: the Job is not created in self._current_execution", n)
-    for k in ("nocache_scope", "noprov_scope", "job_exec", "job_parent"):
+    for k in ("nocache_scope", "nocache_guard", "noprov_scope", "job_exec", "job_parent"):
         if k not in out:
             fail(f"_evaluate_apply: {k} not found", fn)
     return out
@@ -598,8 +617,9 @@ def extract_root_task(mod):
         if e.value not in names:
             fail(f"_subrun_root_task: config_args names an unknown parameter {e.value!r}", fn)
     out["config_args"] = [names[e.value] for e in ca.elts]
-    if src(deco.get("cache_scope")) != "CacheScope.CSE" or src(deco.get("check_valid")) != "CacheCheckValid.SHALLOW":
+    if "cache_scope" not in deco or src(deco.get("check_valid")) != "CacheCheckValid.SHALLOW":
         fail("_subrun_root_task: the task's own cache_scope / check_valid defaults changed", fn)
+    out["defined_scope"] = enum_of(deco["cache_scope"], "CacheScope", SCOPES, "_subrun_root_task")
     body = body_nodoc(fn)
     seq = []
     for s in body:
@@ -647,6 +667,43 @@ def extract_root_task(mod):
     if seq != ["init", "branch", "final", "return"]:
         fail(f"_subrun_root_task: statements found {seq}", fn)
     return out
+
+
+ROOT_PARTS = {"expr.args": "CArgs", "expr.kwargs": "CKwargs", "default_kwargs": "CDefaults",
+              "task.get_task_options()": "CTaskOptions", "expr._options": "CExprOptions"}
+
+
+def extract_needs_root_task(mod):
+    """needs_root_task: not a TaskExpression / a SchedulerExpression -> wrap; otherwise wrap iff an Expression occurs in
+    (expr.args, expr.kwargs, default_kwargs, task.get_task_options(), expr._options) -- which parts are looked at"""
+    fn = find_func(mod, "needs_root_task")
+    body = body_nodoc(fn)
+    t = [src(x) for x in body]
+    if len(body) != 5 or not (isinstance(body[0], ast.If)
+                              and src(body[0].test) == "not isinstance(expr, TaskExpression) or isinstance(expr, SchedulerExpression)"
+                              and [src(x) for x in body[0].body] == ["return True"] and not body[0].orelse):
+        fail(f"needs_root_task: unrecognised shape ({len(body)} statements)", fn)
+    if t[1] != "task = task_registry.get(expr.task_name)" or not isinstance(body[2], ast.Assert) \
+            or t[3] != "default_kwargs = get_arg_defaults(task, expr.args, expr.kwargs)":
+        fail("needs_root_task: unrecognised statements before the concreteness test", fn)
+    r = body[4]
+    ok = isinstance(r, ast.Return) and isinstance(r.value, ast.Call) and src(r.value.func) == "any" and len(r.value.args) == 1 \
+        and isinstance(r.value.args[0], ast.GeneratorExp)
+    if not ok:
+        fail("needs_root_task: the concreteness test is not `return any(... for arg in iter_nested_value((...)))`", r)
+    g = r.value.args[0]
+    if src(g.elt) != "isinstance(arg, Expression)" or len(g.generators) != 1 or g.generators[0].ifs \
+            or src(g.generators[0].target) != "arg":
+        fail("needs_root_task: unrecognised generator in the concreteness test", r)
+    it = g.generators[0].iter
+    if not (isinstance(it, ast.Call) and src(it.func) == "iter_nested_value" and len(it.args) == 1 and isinstance(it.args[0], ast.Tuple)):
+        fail("needs_root_task: the concreteness test does not iterate a tuple of parts", r)
+    parts = []
+    for e in it.args[0].elts:
+        if src(e) not in ROOT_PARTS:
+            fail(f"needs_root_task: unrecognised part {src(e)!r}", e)
+        parts.append(ROOT_PARTS[src(e)])
+    return parts
 
 
 def extract_rows(source=None):
@@ -697,6 +754,14 @@ def translate(pins: dict | None = None, sched_source=None, db_source=None):
     ends, new_exec, ctx_order = extract_run(smod)
     ext, w = extract_extend_run(smod)
     rt = extract_root_task(smod)
+    root_parts = extract_needs_root_task(smod)
+    for fname, cls in (("run", "Scheduler"), ("extend_run", "Scheduler")):
+        cl = find_class(smod, cls)
+        fn_ = [n for n in cl.body if isinstance(n, ast.FunctionDef) and n.name == fname][-1]
+        first = body_nodoc(fn_)[0]
+        if not (isinstance(first, ast.If) and src(first.test) == "needs_root_task(self.task_registry, expr)"
+                and [src(x) for x in first.body] == ["expr = root_task(quote(expr))"] and not first.orelse):
+            fail(f"Scheduler.{fname}: does not start by wrapping the expression when needs_root_task says so", fn_)
     row_parent, row_exec, dmod = extract_rows(db_source)
     got = pins_now(smod, dmod)
     if pins is not None:
@@ -715,8 +780,9 @@ def translate(pins: dict | None = None, sched_source=None, db_source=None):
              gc["valid"], gc["scope"], gc["script_scope"], gc["async_scope"], gc["async_removes"], gc["async_valid"],
              b(gc["args_in_order"]), coq_list([f"({t}, {o})" for t, o in gc["chain"]])),
          "",
-         "Definition gen_subrun_opts : subrun_cfg :=\n  mkSC %s %s %s %s %s." % (
-             sr["default_scope"], sr["default_valid"], coq_list(sr["allowed"]), ea["nocache_scope"], ea["noprov_scope"]),
+         "Definition gen_subrun_opts : subrun_cfg :=\n  mkSC %s %s %s %s %s %s %s." % (
+             sr["default_scope"], sr["default_valid"], coq_list(sr["allowed"]), ea["nocache_scope"], ea["noprov_scope"],
+             ea["nocache_guard"], rt["defined_scope"]),
          "",
          "Definition gen_handback : handback_cfg :=\n  mkHB %s\n    %s\n    %s %s %s %s %s\n    %s." % (
              coq_list(ends), coq_list(ext), coq_list(rt["init"]), b(rt["parent_is_jobinfo"]), b(rt["checks_dict"]),
@@ -729,9 +795,12 @@ def translate(pins: dict | None = None, sched_source=None, db_source=None):
          "",
          "Definition gen_config_args : list rtarg := %s." % coq_list(rt["config_args"]),
          "",
+         "Definition gen_root_parts : list concrete_part := %s." % coq_list(root_parts),
+         "",
          "(* the theorems of Props/C38.v are about the shipped_* configurations: they must be what the source says now *)",
          "Lemma C38_tie_ctx_order : gen_ctx_order = shipped_ctx_order.\nProof. reflexivity. Qed.",
          "Lemma C38_tie_config_args : gen_config_args = shipped_config_args.\nProof. reflexivity. Qed.",
+         "Lemma C38_tie_root_parts : gen_root_parts = shipped_root_parts.\nProof. reflexivity. Qed.",
          "Lemma C38_tie_check_cache : gen_check_cache = shipped_check_cache.\nProof. reflexivity. Qed.",
          "Lemma C38_tie_getcache : gen_getcache = shipped_getcache.\nProof. reflexivity. Qed.",
          "Lemma C38_tie_subrun_opts : gen_subrun_opts = shipped_subrun_opts.\nProof. reflexivity. Qed.",
